@@ -266,6 +266,7 @@ def nf (ctx : Ctx) (σ : SEnv) : Expr → Option SRes
       match nf ctx σ a with
       | some .panic => some .panic
       | some (.ok (.int t l)) => some (.ok (.int ty (castS t ty l)))
+      | some (.ok (.bool s)) => some (.ok (.int ty (s :: zeros (ty.bits - 1))))
       | _ => none
   | .ite c a b =>
       match nf ctx σ c with
